@@ -13,5 +13,5 @@ CONSTANTS
   InitRate = 6000
   F6Quirk = FALSE
   F7Quirk = FALSE
-INVARIANTS ErrAgree ConformCounters ConformNet ConformChains ConformLogs ReloadOpens ConformShadowChains ReleaseRule NeverBroadcastRevoked SecretsInOrder
+INVARIANTS ErrAgree ConformCounters ConformNet ConformChains ConformLogs ReloadOpens ConformShadowChains ReleaseRule ReleaseRuleReest NeverBroadcastRevoked SecretsInOrder
 CHECK_DEADLOCK TRUE
